@@ -19,3 +19,19 @@ Proof.
   - destruct x as [[]|], y as [[]|]; cbn; try discriminate; reflexivity.
   - destruct h as [[]|], v as [[]|]; cbn; try discriminate; reflexivity.
 Qed.
+
+(* ... and conversely: validate accepts every value of the property's documented type *)
+Lemma validate_complete p v : spec_valid p v = true -> validate p v = VTrue.
+Proof.
+  unfold spec_valid.
+  destruct p; destruct v; cbn; try discriminate; try reflexivity;
+    try (destruct e; cbn; try discriminate; reflexivity);
+    try (destruct s; cbn; try discriminate; reflexivity);
+    try (destruct u; cbn; try discriminate; reflexivity).
+  - destruct w as [[]|], h as [[]|]; cbn; try discriminate; reflexivity.
+  - rewrite <- forallb_item. intros ->. reflexivity.
+  - destruct x as [[]|], y as [[]|]; cbn; try discriminate; reflexivity.
+  - destruct h as [[]|], v as [[]|]; cbn; try discriminate; reflexivity.
+Qed.
+Lemma validate_iff p v : validate p v = VTrue <-> spec_valid p v = true.
+Proof. split; [apply validate_sound|apply validate_complete]. Qed.
